@@ -1055,6 +1055,13 @@ def check_getvector_contract(run, rule='R10g'):
                 elif isinstance(x, ast.Call) and cname(fi, x) in ('numpy.array', 'numpy.asarray') and kwarg(x, 'dtype') is not None:
                     dt = kwarg(x, 'dtype')
                 if dt is None:
+                    # an array built from the argument without any dtype (np.array(v)) takes the type of the elements: a list of ints gives an
+                    # int array where the equal float list gives float64
+                    if isinstance(x, ast.Call) and cname(fi, x) in ('numpy.array', 'numpy.asarray') and x.args and isinstance(x.args[0], ast.Name) \
+                            and x.args[0].id == f.params[0] and isinstance(node.ast, ast.Return):
+                        n += 1
+                        run.violation(rule, f.key, 'conversion dtype of ' + src(x, 40), 'the argument is converted without a dtype: the result has the type of the '
+                                      'elements (a list of ints gives an int array) instead of the dtype the caller asked for', f=f, node=x)
                     continue
                 n += 1
                 construct = 'conversion dtype of ' + src(x, 40)
@@ -1117,4 +1124,57 @@ def check_getvector_contract(run, rule='R10g'):
     walk(body_nodoc(f.node), [])
     if n < 10:
         run.error('R10g: only %d instances recognised in getvector (expected >= 10)' % n)
+    return n
+
+
+def check_getunit_contract(run, rule='R10g'):
+    """getunit(v, unit): v itself under 'rad'; every element of v times pi/180 under 'deg' (the scalar / array product, or a
+    comprehension over ALL of v); any other unit raises."""
+    from .r16_tables import Ctx, sl_eval
+    from ..terms import Normaliser, parse_expr, Unrecognised
+    f = run.prog.func('base/argcheck:getunit')
+    cx = Ctx(run, f.key)
+    v, u = f.params[0], f.params[1]
+    nm = Normaliser()
+    want = nm.poly(parse_expr('%s * pi / 180' % v))
+    n = 0
+    for (r, e, conds) in sl_eval(cx, with_conds=True):
+        unit = None
+        for (ce, pol) in conds:
+            for lit in ('rad', 'deg'):
+                if matches("%s == '%s'" % (u, lit), ce) is not None and pol:
+                    unit = lit
+        n += 1
+        construct = 'getunit under %s: %s' % (unit, src(r.value, 40))
+        if unit == 'rad':
+            if isinstance(e, ast.Name) and e.id == v:
+                run.holds(rule, f.key, construct, 'radians are returned as given', f=f, node=r)
+            else:
+                run.violation(rule, f.key, construct, "under unit == 'rad' the value returned is %s, not the argument itself" % src(e, 40), f=f, node=r)
+        elif unit == 'deg':
+            ok = False
+            try:
+                if isinstance(e, ast.ListComp) and len(e.generators) == 1 and isinstance(e.generators[0].target, ast.Name):
+                    g = e.generators[0]
+                    x = g.target.id
+                    if isinstance(g.iter, ast.Name) and g.iter.id == v and not g.ifs:
+                        ok = nm.poly(e.elt) == nm.poly(parse_expr('%s * pi / 180' % x))
+                    else:
+                        run.violation(rule, f.key, construct, 'the comprehension ranges over %s, not over all of %s: some angles are dropped or not converted' % (src(g.iter, 30), v), f=f, node=r)
+                        continue
+                elif matches('radians(%s)' % v, e) is not None or matches('deg2rad(%s)' % v, e) is not None:
+                    ok = True
+                else:
+                    ok = nm.poly(e) == want
+            except Unrecognised:
+                run.error('R10g: getunit: unrecognised conversion %s' % src(e, 40))
+                continue
+            if ok:
+                run.holds(rule, f.key, construct, 'every element times pi/180', f=f, node=r)
+            else:
+                run.violation(rule, f.key, construct, "under unit == 'deg' the value returned is %s, not the argument times pi/180" % src(e, 50), f=f, node=r)
+        else:
+            run.violation(rule, f.key, construct, 'a value is returned for a unit that is neither rad nor deg: an unknown unit must raise', f=f, node=r)
+    if n < 3:
+        run.error('R10g: getunit: fewer than 3 value returns evaluated')
     return n
